@@ -280,13 +280,13 @@ def families(tier, rng):
             pb = _planted(rng, h, w, many_marks=(i % 4 == 0))
             if pb is not None:
                 yield _strip(pb)
-    for (h, w) in [(3, 3), (3, 4), (4, 3), (4, 4), (3, 5), (5, 3)]:
-        for _ in range(40 if th else 8):
+    for (h, w) in ([(3, 3), (3, 4), (4, 3), (4, 4), (3, 5), (5, 3)] if th else [(3, 3), (3, 4), (4, 3)]):
+        for _ in range(40 if th else 6):
             yield _winding_rooms(rng, h, w)
-    for (h, w) in [(3, 4), (3, 5), (4, 4)]:
-        for _ in range(24 if th else 8):
+    for (h, w) in ([(3, 4), (3, 5), (4, 4)] if th else [(3, 4)]):
+        for _ in range(24 if th else 10):
             yield _hook_rooms(rng, h, w)
-    for (h, w) in [(2, 5), (3, 5), (2, 7), (3, 4), (4, 3)]:
+    for (h, w) in ([(2, 5), (3, 5), (2, 7), (3, 4), (4, 3)] if th else [(2, 5), (3, 4)]):
         for up in (True, False):
             for _ in range(4 if th else 2):
                 yield _comb_rooms(rng, h, w, up)
